@@ -927,6 +927,9 @@ func runC01(c *Ctx) {
 	}
 	nClose := 0
 	for _, f := range p.Funcs {
+		if isPrivateHelper(f) && !unitExclude[f] {
+			continue // analysed as part of the functions that call it
+		}
 		if pkgOf(f) != "vnet" {
 			continue
 		}
